@@ -251,12 +251,18 @@ def first_unmatched(tree, rules, path=()):
     return None
 
 
-def classify_merge_loss(lost, merged_text, vendor):
+def classify_merge_loss(lost, merged_text, vendor, texts=None):
     """Why does the merged ACL drop a path that one generator's ACL passes?  Walk the lost path through the
     merged rules the way apply_acl does and name the recorded mechanisms; anything else is 'merge-not-monotone'."""
     from annet.annlib import patching
     from annet.annlib.rbparser import acl
     rules = acl.compile_acl_text(merged_text, vendor)
+    singles = []
+    for t in (texts or []):
+        try:
+            singles.append(acl.compile_acl_text(t, vendor))
+        except Exception:  # noqa
+            singles.append(None)
     shadowed = None
     for i, row in enumerate(lost):
         ms = patching._find_acl_matches(row, rules)
@@ -268,6 +274,25 @@ def classify_merge_loss(lost, merged_text, vendor):
         if f_other["is_reverse"] and all(f_rule["attrs"]["cant_delete"]):
             return "merge-reverse-cant-delete-outranks"
         shadowed = None
+        # one generator declares a rule row %global, another declares the SAME row as a local rule with children:
+        # the merged rule is global and the children rules are gone
+        for raw, g in rules["global"].items():
+            if not g["attrs"]["direct_regexp"].match(row):
+                continue
+            for sr in singles:
+                loc = sr and sr["local"].get(raw)
+                if loc and (loc["children"]["local"] or loc["children"]["global"]):
+                    shadowed = "merge-same-row-global-and-local"
+        for k, sr in enumerate(singles):
+            if sr is None:
+                continue
+            sm = patching._find_acl_matches(row, sr)
+            singles[k] = patching._select_match(sm, sr)[1] if sm else None
+        if shadowed:
+            match, rules = patching._select_match(ms, rules)
+            if match is None:
+                return "merge-not-monotone"
+            continue
         if not f_cr:
             # children rules of this row come from %global rules only
             shadowed = ("merge-reverse-match-shadows-children" if f_other["is_reverse"]
@@ -368,7 +393,9 @@ def oracle(case, r):
                 continue
             lost = [p for p in paths(alone["ok"]) if p not in merged]
             if lost:
-                sig = classify_merge_loss(lost[0], text, vendor)
+                sig = classify_merge_loss(lost[0], text, vendor, [
+                    combine([t2], case["tagged"]).replace("generator_names=g0", "generator_names=g%d" % j)
+                    for j, t2 in enumerate(case["texts"])])
                 out.append(dict(sig=sig, what="path %r passes generator %d's ACL alone but not the merged ACL" % (lost[0], i)))
                 break
     return out
